@@ -24,6 +24,9 @@ def main():
     if f is None:
         print('unknown property', a.prop); sys.exit(2)
     props.SEED[0] = a.seed
+    if 'VERIF_CROSSCHECK' not in os.environ:
+        # per job: re-decide 1 (quick) / 3 (thorough) discharged queries with z3 4.8.12 and cvc5
+        os.environ['VERIF_CROSSCHECK'] = '3' if a.tier == 'thorough' else '1'
     jobs, meta = f(a.tier)
     if a.only:
         jobs = [j for j in jobs if a.only in j[0]]
